@@ -599,6 +599,62 @@ def gen_history(rng, mods=None):
     return h
 
 
+def gen_amend_history(rng):
+    """Directed family: augment / deviation TARGETS that are in the context as imports only (not implemented) and amend each
+    other; a module that amends several of them — in every order — fails (early or late); afterwards a correct module implements
+    a target.  The later-load law compares the end of the history with the same history without the failed call (stale
+    augmented_by / deviated_by links, implemented flags, compiled content of the targets)."""
+    t = Mod("maa", rng.choice(REVS), feats=gen_feats(rng), data=True, typedef=rng.random() < 0.3)
+    q = Mod("mbb", rng.choice(REVS), imports=[("maa", None)], data=True, feats=gen_feats(rng))
+    if rng.random() < 0.75: q.augments.append("maa")
+    if rng.random() < 0.5 or not q.augments: q.deviations.append(("maa", 1))
+    targets = [t, q]
+    if rng.random() < 0.4:
+        r = Mod("mcc", None, imports=[("maa", None), ("mbb", None)], data=True)
+        if rng.random() < 0.6: r.augments.append(rng.choice(["maa", "mbb"]))
+        if rng.random() < 0.4: r.deviations.append((rng.choice(["maa", "mbb"]), 2))
+        targets.append(r)
+    holder = Mod("mdd", None, imports=[(x.name, None) for x in targets], data=rng.random() < 0.5)
+    names = [x.name for x in targets]
+    order = names[:]
+    rng.shuffle(order)
+    k = rng.randint(1, len(order))
+    bad0 = Mod("mee", None, imports=[(n, None) for n in rng.sample(names, len(names))], data=rng.random() < 0.8)
+    bad0.augments = order[:k]
+    if rng.random() < 0.4:
+        bad0.deviations = [(n, 3) for n in rng.sample(names, rng.randint(1, len(names)))]
+    if bad0.data and rng.random() < 0.3:
+        bad0.lrefs = [rng.choice(names)]
+    mods = targets + [holder, bad0]
+    kind, tgt = rng.choice(applicable_edits(bad0, mods))
+    bad = apply_edit(bad0, kind, tgt, rng.choice(targets).ns)
+    good = Mod("mgood", None, imports=[("maa", None)], augments=["maa"], feats=[Feat("g1")])
+    h = History(EXPLICIT if rng.random() < 0.2 else 0)
+    for m in targets + [holder, bad, good]:
+        h.add(m)
+    kinds = ["amend-order", "bad-parse:" + kind]
+    if rng.random() < 0.8:
+        h.parse(holder, None)                      # the targets come in as imports only
+    for x in targets:
+        if rng.random() < 0.15:
+            h.parse(x, gen_featarg(rng, x)); kinds.append("parse")
+    if rng.random() < 0.3:
+        h.data("maa")
+    if h.flags & EXPLICIT and rng.random() < 0.7:
+        h.compile()
+    h.parse(bad, gen_featarg(rng, bad))
+    if h.flags & EXPLICIT:
+        h.compile(); kinds.append("compile")
+    h.parse(good, rng.choice([None, ["g1"]])); kinds.append("good")
+    if rng.random() < 0.4:
+        x = rng.choice(targets)
+        h.impl(x.name, x.rev, None); kinds.append("impl")
+    if h.flags & EXPLICIT:
+        h.compile()
+    h.meta = {"kinds": kinds}
+    return h
+
+
 def gen_yl_history(rng, mods=None, with_alt=True):
     """histories of successful (and a few refused) calls over unchanged sources: what a yang-library description is about"""
     mods = mods or gen_set(rng)
